@@ -1618,7 +1618,14 @@ fn forward_device_data(
         return ConsumeStatus::FilterCaughtup;
     }
 
-    let broker_topic_aliases = &mut connection.broker_topic_aliases;
+    // Broker aliases are kept per subscription filter, and an alias stands for exactly one
+    // topic: only a filter without wildcards always forwards the same topic.
+    let mut no_aliases = None;
+    let broker_topic_aliases = if protocol::has_wildcards(&request.filter) {
+        &mut no_aliases
+    } else {
+        &mut connection.broker_topic_aliases
+    };
     let mut topic_alias = broker_topic_aliases
         .as_ref()
         .and_then(|aliases| aliases.get_alias(&request.filter));
